@@ -2,6 +2,7 @@ package c15
 
 import (
 	"fmt"
+	"sort"
 	"strings"
 
 	"github.com/nspcc-dev/neo-go/pkg/core/block"
@@ -169,6 +170,8 @@ func allChains(maxLen int) []chain {
 		}
 	}
 	rec(nil)
+	// shortest first, so that the first counterexample is short
+	sort.SliceStable(out, func(i, j int) bool { return len(out[i].Steps) < len(out[j].Steps) })
 	return out
 }
 
@@ -429,7 +432,7 @@ func (w *world) build(c chain) (*built, error) {
 		}
 		e.Desc += fmt.Sprintf(" at depth %d", e.Frame)
 		e.Cls = fmt.Sprintf("vm:in=%s:depth=%d:", f.Kind, min(e.Frame, 2))
-		e.Sit = fmt.Sprintf("%s<%s@%d rs=%v q=%s", f.Kind, callerKind(b, e.Frame), min(e.Frame, 2), f.Eff.Has(callflag.ReadStates), strings.TrimLeft(e.Q.Label, "s0123456789"))
+		e.Sit = fmt.Sprintf("%s<%s@%d rs=%v q=%s", f.Kind, callerKind(b, e.Frame), min(e.Frame, 2), f.Eff.Has(callflag.ReadStates), queryKind(e.Q.Label))
 	}
 	return b, nil
 }
@@ -603,6 +606,14 @@ func judge(b *built, ref []signer, ncfg int, trace []obs, state vmstate.State, f
 		out = append(out, mismatch{What: "trace-long", Slot: -1, Got: fmt.Sprint(len(trace)), Want: fmt.Sprint(len(b.Expect))})
 	}
 	return out
+}
+
+// queryKind: "s3:hash" -> "signer-hash", other labels unchanged.
+func queryKind(label string) string {
+	if i := strings.Index(label, ":"); i > 0 && label[0] == 's' && label != "self" {
+		return "signer-" + label[i+1:]
+	}
+	return label
 }
 
 func callerKind(b *built, i int) string {
